@@ -118,7 +118,20 @@ class LogicC07:
         # traffic for other nodes is never delayed: a node that is not asleep gets nothing queued
         "awake-never-queued": lambda old, self, data, result: forall(
             old.self.sensors,
-            lambda m: proto.sleeping(old.self, m) or (m in self.sensors and self.sensors[m].queue == old.self.sensors[m].queue),
+            lambda m: proto.sleeping(old.self, m)
+            or (
+                m in self.sensors
+                and (
+                    self.sensors[m].queue == old.self.sensors[m].queue
+                    # (its own first wake-up announcement releases whatever the queue holds: nothing is added)
+                    or (
+                        wire.decodable(data)
+                        and m == F(data)[0]
+                        and proto.is_wakeup(self.protocol_version, F(data)[2], F(data)[4])
+                        and not self.sensors[m].queue
+                    )
+                )
+            ),
         ),
         # a node falls asleep only by its own wake-up announcement, and never wakes for good
         "sleep-state": lambda old, self, data, result: forall(
@@ -149,6 +162,7 @@ class LogicC08:
     clause_when = {
         "burst-replies": lambda c: c.get("cmd") == 3 and c.get("subs") in (0, None),
         "burst-desired": lambda c: c.get("cmd") == 3 and c.get("subs") in (0, None),
+        "wakeup-covers-children": lambda c: c.get("cmd") == 3 and c.get("subs") in (0, None),
         "report-clears-desired": lambda c: c.get("cmd") == 1,
     }
 
@@ -178,6 +192,18 @@ class LogicC08:
                 not due(old.self.sensors[F(data)[0]], c, vt)
                 or old.G_now.setpay[c][vt] == as_str(old.self.sensors[F(data)[0]].new_state[c].values[vt])
             ),
+        ),
+        # every wake-up makes every child known so far addressable by the controller: it gets a
+        # desired-state entry (also a child presented after an earlier wake-up)
+        "wakeup-covers-children": lambda old, self, data, result: not (
+            accepted(self.protocol_version, data)
+            and proto.is_wakeup(self.protocol_version, F(data)[2], F(data)[4])
+            and F(data)[0] in old.self.sensors
+        )
+        or forall(
+            old.self.sensors[F(data)[0]].children,
+            lambda c: c in self.sensors[F(data)[0]].new_state
+            and (c in old.self.sensors[F(data)[0]].new_state or not self.sensors[F(data)[0]].new_state[c].values),
         ),
         # the desired values stay pending (they are re-sent at every wake-up) ...
         "desired-kept": lambda old, self, data, result: not accepted(self.protocol_version, data)
